@@ -11,7 +11,7 @@
     so the penetration depth min_n h_{A-B}(n) lies in [r, D]. *)
 From Coq Require Import QArith Qreals Reals List.
 From D3 Require Import Base.Ops Base.Vec Base.RVec Spec.Convex Checker.Shapes Checker.Narrow Checker.Pen.
-From D3 Require Import Model.Epa Model.EpaRun Proofs.Epa.
+From D3 Require Import Model.Epa Proofs.Epa.
 From Coq Require Import Lra.
 Import ListNotations.
 
@@ -119,21 +119,8 @@ Theorem C07_epa_initial_polytope_outward : forall (s0 s1 s2 s3 : V3R),
   (dot (raw_normal (mk_face (O:=ROps) b s3 c)) (vsub s0 b) < 0)%R.
 Proof. exact init_faces_outward. Qed.
 
-(** the modelled loop does reach its success exit: binary64 instance, cube [-1,1]^3 against the cube shifted by
-    (1.5,0,0), a simplex of inward orientation: vector (0.5,0,0), 6 faces *)
-Module FloatEx.
-Import PrimFloat.
-Definition ex_cubeF (c s : PrimFloat.float) : list (V3 PrimFloat.float) :=
-  let m := PrimFloat.opp s in
-  [V (PrimFloat.sub c s) m m; V (PrimFloat.sub c s) m s; V (PrimFloat.sub c s) s m; V (PrimFloat.sub c s) s s;
-   V (PrimFloat.add c s) m m; V (PrimFloat.add c s) m s; V (PrimFloat.add c s) s m; V (PrimFloat.add c s) s s].
-Example C07_epa_model_nonvacuous :
-  epa_run 0x1.5798ee2308c3ap-27%float 64 32 64 (ex_cubeF 0%float 1%float) (ex_cubeF 1.5%float 1%float)
-          (V (-2.5)%float (-2)%float (-2)%float) (V 0.5%float 2%float (-1)%float)
-          (V 0.5%float (-2)%float 2%float) (V 0.5%float 1%float 2%float)
-  = (1%nat, V 0.5%float 0%float 0%float, 6%nat).
-Proof. vm_compute. reflexivity. Qed.
-End FloatEx.
+(** (that the modelled loop reaches its success exit is shown on the binary64 instance in Model/EpaRun.v:
+    [epa_run_reaches_success]; Props stays free of PrimFloat) *)
 
 Example C07_epa_exit_nonvacuous :
   let pa : V3R := V 1%R 0%R 0%R in
